@@ -34,6 +34,8 @@ EXPLANATION = (
 def run(prog, tier):
     R = Result(P, EXPLANATION)
     fam.run_family(R, prog, P, MEMBERS, 29)
+    from ._shared import check_iterator_reuse
+    check_iterator_reuse(R, prog, P, ['cnfgen.families', 'cnfgen.formula', 'cnfgen.clihelpers'], 100)
     fam.cli_roles(R, prog, P, MEMBERS, 8)
     table = builder_table(prog)
     fam.borrow(R, P, "MECHANISM", prog, c04.check_thresholds, table, floor=8)
